@@ -243,7 +243,7 @@ Qed.
 
 Theorem uniq_step sp s e : uniq s -> uniq (fst (step sp s e)).
 Proof.
-  intros Hu. destruct e as [|i|n| | |x|tid reset|tid|i]; simpl.
+  intros Hu. destruct e as [|i|n| | |x|tid reset|tid|i|]; simpl.
   - destruct (wf_created s); [exact Hu|].
     set (s0 := mkSt true RUNNING [] [] [] [] (pend s) (uids s)).
     assert (H0 : uniq s0) by constructor.
@@ -302,6 +302,7 @@ Proof.
     + apply uniq_do_start_task. exact Hu.
     + pose proof (uniq_do_result sp s aid res Hu) as H.
       destruct (do_result sp s aid res) as [s1 o]. simpl in H. destruct o; simpl; assumption.
+  - exact Hu.
 Qed.
 
 (* every reachable state has at most one execution per join unique key *)
